@@ -294,6 +294,119 @@ Section History.
   (* a LasData fresh from LasData(header): the record holds copies of the header's arrays *)
   Definition init (sc off : arr3) (cols : list (list Z)) : st :=
     mkst [sc; off; sc; off] 0 1 2 3 cols.
+
+  (* ---------------------------------------------------------------------------------------------- *)
+  (* 4. sessions: a writer / appender kept open while the caller goes on using (and editing) its      *)
+  (*    header and record; assignments whose value is itself a scaled view; every assignment route    *)
+  (* ---------------------------------------------------------------------------------------------- *)
+
+  (* the value of an assignment *)
+  Inductive vsrc :=
+  | VVals (vals : list T)                  (* a numpy array, a list, a scalar (broadcast resolved by the caller) *)
+  | VSelf (axis : nat) (idx : list nat)    (* a scaled view of this very record, las.<axis>[idx], evaluated before anything is modified *)
+  | VOther (xs : list Z) (sc off : T).     (* a scaled view of another record that holds xs under (sc, off) *)
+
+  Definition pick {A} (l : list A) (d : A) (idx : list nat) : list A := map (fun i => nth i l d) idx.
+  (* ScaledArrayView.__setitem__ takes a view value by its scaled values (np.array(value)): what the view presents *)
+  Definition vsrc_vals (s : st) (v : vsrc) : list T :=
+    match v with
+    | VVals vals => vals
+    | VSelf a idx => pick (presented s a) tdefault idx
+    | VOther xs sc off => map (fun X => present X sc off) xs
+    end.
+
+  Fixpoint set_many (col : list Z) (idx : list nat) (xs : list Z) : list Z :=
+    match idx, xs with
+    | i :: ir, x :: xr => set_many (set_at col i x) ir xr
+    | _, _ => col
+    end.
+
+  (* las.<axis>[idx] = vals : the view's __setitem__ with a key; all values are converted and tested, then stored *)
+  Definition assign_view (s : st) (a : nat) (idx : list nat) (vals : list T) : st * out :=
+    match vals with
+    | [] => (s, ONone)
+    | _ :: _ =>
+      match mapM (fun v => store v (rec_scale s a) (rec_offset s a)) vals with
+      | Ok xs =>
+        if Nat.eqb (length xs) (length idx)
+        then (mkst (heap s) (h_s s) (h_o s) (r_s s) (r_o s)
+                   (set_at (ints s) (rec_dim a) (set_many (column s (rec_dim a)) idx xs)), ONone)
+        else (s, OErr EValue)
+      | Err e => (s, OErr e)
+      end
+    end.
+
+  (* an open LasWriter / LasAppender: the ids of its header's scale and offset arrays, the integers it has written so far *)
+  Record wsess := mkws { w_s : nat; w_o : nat; w_cols : list (list Z) }.
+  Record sst := mksst { base : st; wr : option wsess }.
+
+  Inductive sop :=
+  | SBase (o : op)                                  (* any operation of section 3 on the caller's LasData *)
+  | SAttr (a : nat) (v : vsrc)                      (* las.x = v                 : takes the header's arrays, grows *)
+  | SItem (a : nat) (v : vsrc)                      (* las['x'] = v, las.points['x'] = v : the record's scaling, grows *)
+  | SRecAttr (a : nat) (v : vsrc)                   (* las.points.x = v, las.x[:] = v    : the record's scaling *)
+  | SView (a : nat) (idx : list nat) (v : vsrc)     (* las.x[idx] = v *)
+  | SItems (vals : list (list T))                   (* las[['x', 'y', 'z']] = (m, 3) array, by columns : the record's scaling, grows *)
+  | SRecReplaceS (a : arr3)                         (* las.points.scales = a *)
+  | SRecReplaceO (a : arr3)
+  | SRecMutateS (axis : nat) (v : T)                (* las.points.scales[axis] = v : in place *)
+  | SRecMutateO (axis : nat) (v : T)
+  | SOpenHdr                                        (* laspy.open(dest, mode="w", header=las.header) / LasWriter(dest, las.header) *)
+  | SOpenWith (ws wo : arr3) (pre : list (list Z))  (* a writer given another header; an appender on a file with that scaling holding pre *)
+  | SWrite                                          (* writer.write_points(las.points) / appender.append_points(las.points) *)
+  | SClose.                                         (* writer.close(): the file *)
+
+  Definition with_base (ss : sst) (r : st * out) : sst * out := (mksst (fst r) (wr ss), snd r).
+  Definition app_cols (a b : list (list Z)) : list (list Z) := map (fun p => fst p ++ snd p) (combine a b).
+
+  Definition sstep (ss : sst) (o : sop) : sst * out :=
+    let s := base ss in
+    match o with
+    | SBase o => with_base ss (step s o)
+    | SAttr a v => with_base ss (step s (Assign a (vsrc_vals s v)))
+    | SItem a v => with_base ss (lasdata_assign false s a (vsrc_vals s v))
+    | SRecAttr a v => with_base ss (assign_rec s a (vsrc_vals s v))
+    | SView a idx v => with_base ss (assign_view s a idx (vsrc_vals s v))
+    | SItems vals => with_base ss (assign_axes s [0; 1; 2]%nat 0 vals)
+    | SRecReplaceS a => let '(s1, i) := alloc s a in (mksst (mkst (heap s1) (h_s s1) (h_o s1) i (r_o s1) (ints s1)) (wr ss), ONone)
+    | SRecReplaceO a => let '(s1, i) := alloc s a in (mksst (mkst (heap s1) (h_s s1) (h_o s1) (r_s s1) i (ints s1)) (wr ss), ONone)
+    | SRecMutateS a v =>
+        (mksst (mkst (set_at (heap s) (r_s s) (set_at (get (heap s) (r_s s)) a v)) (h_s s) (h_o s) (r_s s) (r_o s) (ints s)) (wr ss), ONone)
+    | SRecMutateO a v =>
+        (mksst (mkst (set_at (heap s) (r_o s) (set_at (get (heap s) (r_o s)) a v)) (h_s s) (h_o s) (r_s s) (r_o s) (ints s)) (wr ss), ONone)
+    | SOpenHdr =>
+        if gen_writer_copies_header
+        then (* self.header = deepcopy(header): arrays of its own *)
+          let '(s1, wsid) := alloc s (get (heap s) (h_s s)) in
+          let '(s2, woid) := alloc s1 (get (heap s1) (h_o s1)) in
+          (mksst s2 (Some (mkws wsid woid [[]; []; []])), ONone)
+        else (mksst s (Some (mkws (h_s s) (h_o s) [[]; []; []])), ONone)
+    | SOpenWith ws wo pre =>
+        let '(s1, wsid) := alloc s ws in
+        let '(s2, woid) := alloc s1 wo in
+        (mksst s2 (Some (mkws wsid woid pre)), ONone)
+    | SWrite =>
+        match wr ss with
+        | None => (ss, ONone)
+        | Some w =>
+          let r := write_points s (w_s w) (w_o w) in
+          match snd r with
+          | OFile f => (mksst (fst r) (Some (mkws (w_s w) (w_o w) (app_cols (w_cols w) (f_ints f)))), ONone)
+          | x => (mksst (fst r) (wr ss), x)
+          end
+        end
+    | SClose =>
+        match wr ss with
+        | None => (ss, ONone)
+        | Some w => (mksst s None, OFile (mkfile (get (heap s) (w_s w)) (get (heap s) (w_o w)) (w_cols w)))   (* write_updated_header *)
+        end
+    end.
+
+  Fixpoint srun (ss : sst) (ops : list sop) : sst * list out :=
+    match ops with
+    | [] => (ss, [])
+    | o :: r => let '(s1, x) := sstep ss o in let '(s2, xs) := srun s1 r in (s2, x :: xs)
+    end.
 End History.
 
 Arguments mkst {T}. Arguments heap {T}. Arguments h_s {T}. Arguments h_o {T}. Arguments r_s {T}. Arguments r_o {T}.
@@ -309,3 +422,14 @@ Definition f_step := step fl f_present f_store_checked f_restore_checked fl_eqb 
 Definition f_run := run fl f_present f_store_checked f_restore_checked fl_eqb None.
 Definition f_presented := presented fl f_present None.
 Definition f_init := init fl.
+
+Arguments VVals {T}. Arguments VSelf {T}. Arguments VOther {T}.
+Arguments mksst {T}. Arguments base {T}. Arguments wr {T}.
+Arguments SBase {T}. Arguments SAttr {T}. Arguments SItem {T}. Arguments SRecAttr {T}. Arguments SView {T}. Arguments SItems {T}.
+Arguments SRecReplaceS {T}. Arguments SRecReplaceO {T}. Arguments SRecMutateS {T}. Arguments SRecMutateO {T}.
+Arguments SOpenHdr {T}. Arguments SOpenWith {T}. Arguments SWrite {T}. Arguments SClose {T}.
+
+Definition q_sstep := sstep Q q_present q_store_checked q_restore_checked Qeq_bool 0%Q.
+Definition q_srun := srun Q q_present q_store_checked q_restore_checked Qeq_bool 0%Q.
+Definition f_sstep := sstep fl f_present f_store_checked f_restore_checked fl_eqb None.
+Definition f_srun := srun fl f_present f_store_checked f_restore_checked fl_eqb None.
